@@ -35,15 +35,17 @@ type rowIn struct {
 }
 
 type input struct {
-	K        int     `json:"sort"`
-	D        int     `json:"direction"`
-	Asc      bool    `json:"asc"`
-	Limit    uint64  `json:"limit"`
-	Path     string  `json:"path"` // "pp": By.Sort + PostProcess; "fin": distributed finalizeResult
-	Bound    uint64  `json:"bound,omitempty"`
-	Rows     []rowIn `json:"rows"`
-	Shuffles int     `json:"shuffles"` // 0 = every permutation (len(rows) <= 6 only)
-	ShSeed   uint64  `json:"shuffle_seed,omitempty"`
+	K         int     `json:"sort"`
+	D         int     `json:"direction"`
+	Asc       bool    `json:"asc"`
+	Limit     uint64  `json:"limit"`
+	Path      string  `json:"path"` // "pp": By.Sort + PostProcess; "fin": distributed finalizeResult
+	Bound     uint64  `json:"bound,omitempty"`
+	Rows      []rowIn `json:"rows"`
+	TimeLabel bool    `json:"time_label,omitempty"` // Statement.LabelSelector.Timestamp
+	BinSec    int64   `json:"bin_sec,omitempty"`    // Statement.TimeBinSize in seconds (binning runs unless 300)
+	Shuffles  int     `json:"shuffles"`             // 0 = every permutation (len(rows) <= 6 only)
+	ShSeed    uint64  `json:"shuffle_seed,omitempty"`
 }
 
 const zeroSec = -62135596800
@@ -169,6 +171,31 @@ func fixedCases() []input {
 		cs = append(cs, input{K: 3, D: 1, Asc: true, Limit: 1, Path: "pp", Rows: []rowIn{a, b}})
 		cs = append(cs, input{K: 2, D: 4, Asc: false, Limit: 1, Path: "fin", Bound: 1, Rows: []rowIn{b, a}})
 	}
+	// time label + time resolution: PostProcess re-bins BEFORE the limit. 24 five-minute rows on two interfaces
+	// over two hours -> 4 rows at 1h and at 1d, 24 at 10m/5m/0; limits below / between / above both counts
+	var series []rowIn
+	for j := 1; j <= 12; j++ {
+		series = append(series, mod(func(b *rowIn) {
+			b.Sec = binBase + int64(600*j-300)
+			b.Zone = j % len(locs)
+			b.C = [4]uint64{uint64(j), 1, 2, 3}
+		}))
+		series = append(series, mod(func(b *rowIn) {
+			b.Sec = binBase + int64(600*j)
+			b.Iface = "eth1"
+			b.C = [4]uint64{1 << 63, uint64(j), 0, 1}
+		}))
+	}
+	for _, bin := range []int64{3600, 86400, 600, 0, 300} {
+		for _, lim := range []uint64{2, 3, 4, 5, 20, 23, 24, 25, 1000} {
+			if bin != 3600 && lim != 2 && lim != 20 && lim != 1000 {
+				continue
+			}
+			cs = append(cs, input{K: 3, D: 1, Asc: true, Limit: lim, Path: "pp", Rows: series, TimeLabel: true, BinSec: bin, Shuffles: 6, ShSeed: lim})
+			cs = append(cs, input{K: 3, D: 1, Asc: true, Limit: lim, Path: "fin", Bound: lim, Rows: series, TimeLabel: true, BinSec: bin, Shuffles: 6, ShSeed: lim})
+			cs = append(cs, input{K: 3, D: 1, Asc: true, Limit: 1000, Path: "fin", Bound: lim, Rows: series, TimeLabel: true, BinSec: bin, Shuffles: 6, ShSeed: lim})
+		}
+	}
 	// limits around the length, both paths; empty input
 	for _, lim := range []uint64{0, 1, 4, 5, 6, 1000, ^uint64(0)} {
 		cs = append(cs, input{K: 3, D: 1, Asc: true, Limit: lim, Path: "pp", Rows: times})
@@ -186,11 +213,82 @@ func fixedCases() []input {
 
 var fixed = fixedCases()
 
+const binBase = 1699999200 // a multiple of 3600
+
+// end of the bin of sec (the specification: smallest multiple of bin that is >= sec)
+func binEnd(sec, bin int64) int64 {
+	if bin <= 0 || sec == zeroSec {
+		return sec
+	}
+	q := sec / bin
+	if sec%bin != 0 && sec > 0 {
+		q++
+	}
+	return q * bin
+}
+
+// a time query with a time resolution: several 5-minute rows per bin on a few label/attribute variants
+func genBinned(r *vhlib.Rand, o vhlib.Opts) input {
+	in := input{K: 3, D: vhlib.Pick(r, []int{1, 2, 3, 4}), Asc: true, Path: "pp", TimeLabel: true,
+		BinSec: vhlib.Pick(r, []int64{0, 300, 600, 600, 3600, 3600, 3600, 86400, 86400})}
+	span := 30
+	if in.BinSec == 86400 {
+		span = 700
+	}
+	n := 3 + r.Intn(38)
+	variants := 1 + r.Intn(3)
+	rows := make([]rowIn, 0, n)
+	for len(rows) < n {
+		ri := genRow(r, 2)
+		v := r.Intn(variants)
+		ri.Iface, ri.Host, ri.HostID, ri.Dip, ri.Proto, ri.Dport = ifaces[v], "hostA", "1", "10.0.0.2", 6, 80
+		ri.Sip = addrs[1+v]
+		ri.Sec = binBase + 300*int64(r.Intn(span)) - 86400*int64(r.Intn(2))
+		ri.Zone = r.Intn(len(locs))
+		if r.Chance(3) {
+			ri.Sec, ri.Zone = zeroSec, 0
+		}
+		rows = append(rows, ri)
+	}
+	rows = normalise(r, rows, false)
+	n = len(rows)
+	groups := map[string]bool{}
+	for _, ri := range rows {
+		b := ri
+		b.Sec = binEnd(ri.Sec, in.BinSec)
+		groups[keyOf(b)] = true
+	}
+	g := len(groups)
+	if in.BinSec == 300 {
+		g = n
+	}
+	in.Rows = rows
+	if n > 6 {
+		in.Shuffles = 10
+	}
+	in.ShSeed = r.U64()
+	in.Limit = vhlib.Pick(r, []uint64{0, 1, uint64(max(g-1, 1)), uint64(g), uint64(g + 1), uint64((g + n + 1) / 2), uint64((g + n + 1) / 2), uint64(max(n-1, 1)), uint64(n), uint64(n + 1), 1000, ^uint64(0)})
+	if r.Chance(55) {
+		in.Path = "fin"
+		in.Bound = vhlib.Pick(r, []uint64{in.Limit, in.Limit, 100, 2, uint64(g), uint64((g + n + 1) / 2)})
+		if r.Chance(30) { // as through Args: time queries ask for MaxResults, the streaming bound decides
+			in.Limit = 9999999999999
+		}
+	}
+	return in
+}
+
 func gen(r *vhlib.Rand, i int, o vhlib.Opts) any {
 	if i < len(fixed) {
 		return fixed[i]
 	}
+	if r.Chance(22) {
+		return genBinned(r, o)
+	}
 	in := input{K: vhlib.Pick(r, []int{1, 2, 3}), D: vhlib.Pick(r, []int{1, 2, 3, 4}), Asc: r.Bool(), Path: "pp"}
+	if r.Chance(10) { // time label selected, default resolution: no re-binning
+		in.TimeLabel, in.BinSec = true, 300
+	}
 	if r.Chance(3) {
 		in.K = vhlib.Pick(r, []int{0, 4})
 	}
@@ -292,12 +390,26 @@ func coqAddr(a netip.Addr) string {
 	}
 }
 
-func coqRow(ri rowIn, row results.Row) string {
+// zone id of a timestamp: index of its *time.Location in locs, 100 for time.Local (what time.Unix yields)
+func zoneID(t time.Time) int {
+	l := t.Location()
+	for i, x := range locs {
+		if l == x {
+			return i
+		}
+	}
+	if l == time.Local {
+		return 100
+	}
+	return 999
+}
+
+func coqRow(row results.Row) string {
 	inst := new(big.Int).Mul(big.NewInt(row.Labels.Timestamp.Unix()), big.NewInt(1000000000))
 	inst.Add(inst, big.NewInt(int64(row.Labels.Timestamp.Nanosecond())))
 	is := coqNum(inst) + "%Z"
 	u := func(v uint64) string { return coqNum(new(big.Int).SetUint64(v)) }
-	return fmt.Sprintf("R %s %d%%Z %s %s %s %s %s %d %d %s %s %s %s", is, ri.Zone,
+	return fmt.Sprintf("R %s %d%%Z %s %s %s %s %s %d %d %s %s %s %s", is, zoneID(row.Labels.Timestamp),
 		coqStr(row.Labels.Hostname), coqStr(row.Labels.HostID), coqStr(row.Labels.Iface),
 		coqAddr(row.Attributes.SrcIP), coqAddr(row.Attributes.DstIP), row.Attributes.IPProto, row.Attributes.DstPort,
 		u(row.Counters.BytesRcvd), u(row.Counters.BytesSent), u(row.Counters.PacketsRcvd), u(row.Counters.PacketsSent))
@@ -350,22 +462,46 @@ func shuffles(n, k int, seed uint64) [][]int {
 }
 
 // indices of the output rows in the base list; identical rows take their indices in order of appearance
-func indices(base, out []results.Row) []int {
+func indices(base, out []results.Row, ex *extraRows) []int {
 	pos := map[results.Row][]int{}
 	for i, r := range base {
 		pos[r] = append(pos[r], i)
 	}
+	used := map[results.Row]bool{}
 	idx := make([]int, len(out))
 	for i, r := range out {
 		p := pos[r]
 		if len(p) == 0 {
-			idx[i] = 1000000 + i // a row that is not in the input (or too many copies of one)
+			if _, isBase := pos[r]; isBase || used[r] || ex == nil {
+				idx[i] = 1000000 + i // more copies of a row than the input holds
+				continue
+			}
+			used[r] = true
+			idx[i] = len(base) + ex.index(r) // a row that is not an input row (re-binned)
 			continue
 		}
 		idx[i] = p[0]
 		pos[r] = p[1:]
 	}
 	return idx
+}
+
+// rows that appear in outputs without being input rows, in order of first appearance
+type extraRows struct {
+	rows []results.Row
+	at   map[results.Row]int
+}
+
+func (e *extraRows) index(r results.Row) int {
+	if e.at == nil {
+		e.at = map[results.Row]int{}
+	}
+	if i, ok := e.at[r]; ok {
+		return i
+	}
+	e.at[r] = len(e.rows)
+	e.rows = append(e.rows, r)
+	return e.at[r]
 }
 
 // strings are printed without the %string delimiter (string_scope is opened by the case prelude):
@@ -379,13 +515,14 @@ func coqStr(s string) string {
 
 func u64(v uint64) string { return coqNum(new(big.Int).SetUint64(v)) }
 
-func idxString(idx []int) string {
+func idxList(idx []int) string {
 	xs := make([]string, len(idx))
 	for i, v := range idx {
 		xs[i] = strconv.Itoa(v)
 	}
-	return "Ok [" + strings.Join(xs, "; ") + "]"
+	return "[" + strings.Join(xs, "; ") + "]"
 }
+func idxString(idx []int) string { return "Ok " + idxList(idx) }
 
 type distinct struct {
 	order []string
@@ -439,6 +576,7 @@ func run(raw json.RawMessage, o vhlib.Opts) (*vhlib.Case, error) {
 
 	ctx := context.Background()
 	var full, lim distinct
+	var extra extraRows
 	for _, p := range perms {
 		cp := make([]results.Row, n)
 		for i, j := range p {
@@ -452,9 +590,12 @@ func run(raw json.RawMessage, o vhlib.Opts) (*vhlib.Case, error) {
 		if panicked {
 			full.add("Panic")
 		} else {
-			full.add(idxString(indices(base, sorted)))
+			full.add(idxString(indices(base, sorted, nil)))
 		}
-		stmt := &query.Statement{SortBy: results.SortOrder(in.K), Direction: types.Direction(in.D), SortAscending: in.Asc, NumResults: in.Limit}
+		stmt := &query.Statement{SortBy: results.SortOrder(in.K), Direction: types.Direction(in.D), SortAscending: in.Asc, NumResults: in.Limit,
+			TimeBinSize: time.Duration(in.BinSec) * time.Second}
+		stmt.LabelSelector.Timestamp = in.TimeLabel
+		displayed := 0
 		var limited []results.Row
 		panicked2, _ := vhlib.Recover(func() {
 			res := results.New()
@@ -474,16 +615,21 @@ func run(raw json.RawMessage, o vhlib.Opts) (*vhlib.Case, error) {
 				gqdist.VerifC14FinalizeResult(ctx, res, stmt, rm, in.Bound)
 			}
 			limited = res.Rows
+			displayed = res.Summary.Hits.Displayed
 		})
 		if panicked2 {
 			lim.add("Panic")
 		} else {
-			lim.add(idxString(indices(base, limited)))
+			lim.add("Ok (" + idxList(indices(base, limited, &extra)) + ", " + strconv.Itoa(displayed) + ")")
 		}
 	}
 
 	// distribution tags
-	tags := []string{"path=" + in.Path, "sort=" + strconv.Itoa(in.K), "dir=" + strconv.Itoa(in.D)}
+	binTag := "time-label=off"
+	if in.TimeLabel {
+		binTag = "time-label,bin=" + strconv.FormatInt(in.BinSec, 10) + "s"
+	}
+	tags := []string{binTag, "path=" + in.Path, "sort=" + strconv.Itoa(in.K), "dir=" + strconv.Itoa(in.D)}
 	switch {
 	case n <= 6:
 		tags = append(tags, "all-permutations")
@@ -528,7 +674,7 @@ func run(raw json.RawMessage, o vhlib.Opts) (*vhlib.Case, error) {
 
 	rowTerms := make([]string, n)
 	for i := range base {
-		rowTerms[i] = coqRow(kept[i], base[i])
+		rowTerms[i] = coqRow(base[i])
 	}
 	trim := func(d distinct) []string { // at most 3 distinct outputs go into the Coq term (2 already refute)
 		if len(d.order) > 3 {
@@ -553,8 +699,16 @@ func run(raw json.RawMessage, o vhlib.Opts) (*vhlib.Case, error) {
 		}
 		return vhlib.CoqList(ys)
 	}
-	c.Coq = fmt.Sprintf("Case %s %s %s %s %s %s %s %s", vhlib.CoqZ(int64(in.K)), vhlib.CoqZ(int64(in.D)), vhlib.CoqBool(in.Asc), u64(in.Limit), bound,
-		vhlib.CoqList(rowTerms), wrapRes(trim(full)), wrapRes(trim(lim)))
+	tb := "None"
+	if in.TimeLabel {
+		tb = "(Some " + coqNum(new(big.Int).Mul(big.NewInt(in.BinSec), big.NewInt(1000000000))) + "%Z)"
+	}
+	extraTerms := make([]string, len(extra.rows))
+	for i, r := range extra.rows {
+		extraTerms[i] = coqRow(r)
+	}
+	c.Coq = fmt.Sprintf("Case %s %s %s %s %s %s %s %s %s %s", vhlib.CoqZ(int64(in.K)), vhlib.CoqZ(int64(in.D)), vhlib.CoqBool(in.Asc), tb, u64(in.Limit), bound,
+		vhlib.CoqList(rowTerms), vhlib.CoqList(extraTerms), wrapRes(trim(full)), wrapRes(trim(lim)))
 	validOrder := in.K == 3 || ((in.K == 1 || in.K == 2) && in.D >= 1 && in.D <= 4)
 	c.Nontrivial = validOrder && n >= 2 && len(perms) >= 2
 	return c, nil
